@@ -24,6 +24,11 @@ class TrieDict(object):
         self.__root = TrieDictNode()
 
     def __len__(self):
+        # NOTE: a node's counter only counts the items of its children,
+        # so the item stored under the empty prefix must be added here
+        if self.__root.value is not NULL:
+            return self.__root.counter + 1
+
         return self.__root.counter
 
     def __setitem__(self, prefix, value):
